@@ -324,7 +324,12 @@ class CentrallyBin(Factory, Container):
 
     @inheritdoc(Container)
     def zero(self):
-        return CentrallyBin([c for c, v in self.bins], self.quantity, self.value, self.nanflow.zero())
+        out = CentrallyBin([c for c, v in self.bins], self.quantity, self.value, self.nanflow.zero())
+        if self.value is None:
+            # immutable form (from JSON or ed) has no value template: empty the existing bins instead
+            out.bins = [(c, v.zero()) for c, v in self.bins]
+            return out.specialize()
+        return out
 
     @inheritdoc(Container)
     def __add__(self, other):
